@@ -124,3 +124,53 @@ CORPUS += [
     V("C02", "eq-cvrp-done-all", R + "cvrp/env.py", "done = visited.sum(-1) == visited.size(-1)", "done = visited.bool().all(-1)", None),
     V("C02", "eq-mtsp-or-operator", R + "mtsp/env.py", "available[..., 0] = torch.logical_or(done, available[..., 0])", "available[..., 0] = done | available[..., 0]", None),
 ]
+
+G_ = "rl4co/envs/graph/"
+CORPUS += [
+    # ---------------------------------------------------------------- C03
+    V("C03", "cvrp-reward-no-depot", R + "cvrp/env.py", '''        locs_ordered = torch.cat(
+            [
+                td["locs"][..., 0:1, :],  # depot
+                gather_by_index(td["locs"], actions),  # order locations
+            ],
+            dim=1,
+        )
+        return -get_tour_length(locs_ordered)''', '''        locs_ordered = gather_by_index(td["locs"], actions)
+        return -get_tour_length(locs_ordered)''', "C03.b"),
+    V("C03", "tsp-reward-sign", R + "tsp/env.py", "        return -get_tour_length(locs_ordered)\n\n    @staticmethod\n    def check_solution_validity(td: TensorDict, actions: torch.Tensor) -> None:\n        \"\"\"Check that solution is valid: nodes are visited exactly once\"\"\"", "        return get_tour_length(locs_ordered)\n\n    @staticmethod\n    def check_solution_validity(td: TensorDict, actions: torch.Tensor) -> None:\n        \"\"\"Check that solution is valid: nodes are visited exactly once\"\"\"", "C03.c"),
+    V("C03", "atsp-roll-direction", R + "atsp/env.py", "nodes_tgt = torch.roll(actions, -1, dims=1)", "nodes_tgt = torch.roll(actions, 1, dims=1)", "C03.b"),
+    V("C03", "atsp-src-tgt-swapped", R + "atsp/env.py", "distance_matrix[batch_idx, nodes_src, nodes_tgt]", "distance_matrix[batch_idx, nodes_tgt, nodes_src]", "C03.b"),
+    V("C03", "tour-length-roll-coord-axis", "rl4co/utils/ops.py", "ordered_locs_next = torch.roll(ordered_locs, -1, dims=-2)", "ordered_locs_next = torch.roll(ordered_locs, -1, dims=-1)", "C03.b"),
+    V("C03", "pctsp-penalty-term-dropped", R + "pctsp/env.py", 'return saved_penalty.sum(-1) - (length + td["penalty"][..., 1:].sum(-1))', "return saved_penalty.sum(-1) - length", "C03"),
+    V("C03", "pctsp-penalty-sign", R + "pctsp/env.py", 'return saved_penalty.sum(-1) - (length + td["penalty"][..., 1:].sum(-1))', 'return -saved_penalty.sum(-1) - (length + td["penalty"][..., 1:].sum(-1))', "C03.c"),
+    V("C03", "mtvrp-open-route-wrong-leg", R + "mtvrp/env.py", '~((go_to == 0) & td["open_route"])', '~((go_from == 0) & td["open_route"])', "C03.b"),
+    V("C03", "mtvrp-ignores-open-route", R + "mtvrp/env.py", 'tour_length = (distances * ~((go_to == 0) & td["open_route"])).sum(-1)', "tour_length = distances.sum(-1)", "C03.a"),
+    V("C03", "mcp-reads-mutated-weights", G_ + "mcp/env.py", 'weights = td["orig_weights"]  # (batch_size, n_items)', 'weights = td["weights"]  # (batch_size, n_items)', "C03.a"),
+    V("C03", "flp-reads-mutated-distances", G_ + "flp/env.py", 'orig_distances = td["orig_distances"]\n        cur_min_dist = (', 'orig_distances = td["distances"]\n        cur_min_dist = (', "C03.a"),
+    V("C03", "smtwtp-no-clamp", "rl4co/envs/scheduling/smtwtp/env.py", "        job_tardiness[job_tardiness < 0] = 0\n", "", "C03.b"),
+    V("C03", "smtwtp-cumsum-unordered", "rl4co/envs/scheduling/smtwtp/env.py", "            ordered_process_time, dim=1\n", "            job_process_time, dim=1\n", "C03.b"),
+    V("C03", "fjsp-makespan-pad-zero", "rl4co/envs/scheduling/fjsp/env.py", '-td["finish_times"].masked_fill(td["pad_mask"], -torch.inf).max(1).values', '-td["finish_times"].masked_fill(td["pad_mask"], torch.inf).max(1).values', "C03.b"),
+    V("C03", "mtsp-reward-not-negated", R + "mtsp/env.py", "reward = -max_subtour_length", "reward = max_subtour_length", "C03.d"),
+    V("C03", "mtsp-max-after-reset", R + "mtsp/env.py", '''        max_subtour_length = torch.where(
+            current_length > td["max_subtour_length"],
+            current_length,
+            td["max_subtour_length"],
+        )
+
+        # If current agent is different from previous agent, then we have a new subtour and reset the length
+        current_length *= (cur_agent_idx == td["agent_idx"]).float()
+''', '''        current_length *= (cur_agent_idx == td["agent_idx"]).float()
+        max_subtour_length = torch.where(
+            current_length > td["max_subtour_length"],
+            current_length,
+            td["max_subtour_length"],
+        )
+''', "C03.d"),
+    V("C03", "mdcpdp-length-to-old-depot", R + "mdcpdp/env.py", "current_length.scatter_add_(-1, current_depot, current_step_length)", 'current_length.scatter_add_(-1, td["current_depot"], current_step_length)', "C03.d"),
+    V("C03", "op-reward-prize-of-all", R + "op/env.py", 'collected_prize = td["prize"].gather(1, actions)', 'collected_prize = td["prize"]', "C03.a"),
+    # equivalents
+    V("C03", "eq-atsp-roll-source", R + "atsp/env.py", "        nodes_src = actions\n        nodes_tgt = torch.roll(actions, -1, dims=1)", "        nodes_tgt = actions\n        nodes_src = torch.roll(actions, 1, dims=1)", None),
+    V("C03", "eq-pctsp-rearranged", R + "pctsp/env.py", 'return saved_penalty.sum(-1) - (length + td["penalty"][..., 1:].sum(-1))', 'return -length + saved_penalty.sum(-1) - td["penalty"][..., 1:].sum(-1)', None),
+    V("C03", "eq-tour-roll-plus", "rl4co/utils/ops.py", "ordered_locs_next = torch.roll(ordered_locs, -1, dims=-2)", "ordered_locs_next = torch.roll(ordered_locs, 1, dims=-2)", None),
+    V("C03", "eq-cvrp-rename", R + "cvrp/env.py", "locs_ordered", "seq", None, count=99),
+]
